@@ -18,6 +18,7 @@ import json
 import os
 import pathlib
 import random
+import re
 import shutil
 import subprocess
 
@@ -484,20 +485,41 @@ def _no_scratch_dir_failure(ctx, rng):
     while s is None:
         s = base_scenario(rng, 3, 3)
     jobs = []
-    for k, pt, mode in ((3, 'after', 'raise'), (2, 'mid', 'kill')):
-        pp = ctx.scratch / f'h11_plan_{k}.json'
-        json.dump(pooltrace.fault_plan(s, k, pt, mode), open(pp, 'w'))
-        jobs.append({'job': {'scn': s, 'scheme': 'structural', 'plan': str(pp), 'mode': 'cli', 'damage': 'no_tmp_dir'}})
-    for (k, pt, mode), o in zip(((3, 'after', 'raise'), (2, 'mid', 'kill')), sub.run_jobs(ctx, jobs)):
-        ctx.count({'stage': 'mapping', 'kind': 'fail_without_scratch_dir', 'fault': [k, pt, mode]}, nontrivial=True)
-        extra = [x for x in o.get('out_listing', []) if x not in ('res.json', 'log.txt', 'res.h5')]
+    # each run gets a system temporary directory of its own (TMPDIR): without a scratch directory that is where the
+    # stage puts what it needs meanwhile, and nothing of it may be left once the call has returned (H12)
+    systmp = []
+    for k, pt, mode in ((3, 'after', 'raise'), (2, 'mid', 'kill'), (0, 'none', 'none')):
+        st = ctx.scratch / f'h11_systmp_{k}'
+        st.mkdir(parents=True, exist_ok=True)
+        systmp.append(st)
+        pp = None
+        if mode != 'none':
+            pp = ctx.scratch / f'h11_plan_{k}.json'
+            json.dump(pooltrace.fault_plan(s, k, pt, mode), open(pp, 'w'))
+        jobs.append({'job': {'scn': s, 'scheme': 'structural', 'plan': str(pp) if pp else None, 'mode': 'cli',
+                             'damage': 'no_tmp_dir'}, 'env': {'TMPDIR': str(st)}})
+    for (k, pt, mode), st, o in zip(((3, 'after', 'raise'), (2, 'mid', 'kill'), (0, 'none', 'none')), systmp,
+                                    sub.run_jobs(ctx, jobs)):
+        ctx.count({'stage': 'mapping', 'kind': 'without_scratch_dir', 'fault': [k, pt, mode]}, nontrivial=True)
+        extra = [x for x in o.get('out_listing', []) if x not in ('res.json', 'log.txt', 'res.h5', 'res.csv')]
+        left = sorted(x for x in os.listdir(st) if not x.startswith('pymp-'))
+        if left and mode != 'kill':
+            # (a killed worker cannot tidy up after itself: only the runs whose processes all end in Python are asserted)
+            ctx.report('mapping:no-scratch-dir:system-temp-left', f'a mapping run without a scratch directory '
+                       f'({"successful" if mode == "none" else f"worker {k} fails {pt} its work by {mode}"}) left '
+                       f'{[re.sub(r"_[a-z0-9_]{8}", "_*", x) for x in left]} in the system temporary directory',
+                       {'history': 'mapping_without_scratch_dir_system_temp', 'fault': [k, pt, mode]})
+        if mode == 'none':
+            if not o['ok']:
+                raise MachineryError(f'history H12: the run without a scratch directory failed: {o["error"]}')
+            continue
         if o['ok']:
             raise MachineryError('history H11: the injected failure did not fail the run')
         if extra:
             ctx.report('mapping:error-path:output-dir-left', f'a failing mapping run without a scratch directory left {extra} '
                        f'in the output directory (worker {k} fails {pt} its work by {mode})',
                        {'history': 'mapping_fail_without_scratch_dir', 'fault': [k, pt, mode]})
-    ctx.part('c2s', no_scratch_dir_failures=2)
+    ctx.part('c2s', no_scratch_dir_failures=2, no_scratch_dir_success=1)
 
 
 def _same_name_outputs(ctx, base, pipe, expect):
